@@ -11,6 +11,9 @@ From PowHsm Require Import Gen.Src.
 From PowHsm Require Import Proofs.SrcEquivPin.
 From PowHsm Require Import Proofs.SrcLiftPin.
 From PowHsm Require Import Proofs.C18b.
+From PowHsm Require Import Gen.SrcM.
+From PowHsm Require Import Proofs.SrcEquivDongleM.
+From PowHsm Require Import Proofs.SrcEquivPinM.
 Open Scope N_scope.
 
 (* the confirmation loop returns yes iff the first line that normalises to yes / n / no is a yes *)
@@ -18,7 +21,7 @@ Theorem C18_confirm_yes_iff :
   forall stdin r : list str,
          confirm stdin = Some (true, r) <->
          (exists (junk : list str) (l : str),
-            stdin = (junk ++ l :: r)%list /\ norm_answer l = s "yes" /\ Forall undecided junk).
+            stdin = junk ++ l :: r /\ norm_answer l = s "yes" /\ Forall undecided junk).
 Proof. exact (@confirm_yes_iff). Qed.
 
 (* and no iff it is n or no *)
@@ -26,7 +29,7 @@ Theorem C18_confirm_no_iff :
   forall stdin r : list str,
          confirm stdin = Some (false, r) <->
          (exists (junk : list str) (l : str),
-            stdin = (junk ++ l :: r)%list /\
+            stdin = junk ++ l :: r /\
             (norm_answer l = s "n" \/ norm_answer l = s "no") /\ Forall undecided junk).
 Proof. exact (@confirm_no_iff). Qed.
 
@@ -35,7 +38,7 @@ Theorem C18_ask_for_pin_iff :
   forall (typed : list bytes) (any : bool) (p : bytes) (r : list bytes),
          ask_for_pin typed any = Some (p, r) <->
          (exists bad : list bytes,
-            typed = (bad ++ p :: r)%list /\
+            typed = bad ++ p :: r /\
             Forall (fun x : bytes => pin_is_valid x any = false) bad /\ pin_is_valid p any = true).
 Proof. exact (@ask_for_pin_iff). Qed.
 
@@ -52,7 +55,7 @@ Proof. exact (@do_onboard_shape). Qed.
 Theorem C18_onboard_destructive_only_under_preconditions :
   forall (k : dongle_kind) (o : admin_opts) (stdin : list str) (typed : list bytes)
            (seed : bytes) (w : world) (n1 : list event) (u : event) (n2 : list event),
-         new_events w (snd (do_onboard k o stdin typed seed w)) = (n1 ++ u :: n2)%list ->
+         new_events w (snd (do_onboard k o stdin typed seed w)) = n1 ++ u :: n2 ->
          destructive u = true ->
          InOrder (onboard_pre_events k) n1 /\
          (exists rest : list str, confirm stdin = Some (true, rest)) /\
@@ -64,10 +67,10 @@ Proof. exact (@onboard_destructive_only_under_preconditions). Qed.
 Theorem C18_onboard_destructive_needs_yes :
   forall (k : dongle_kind) (o : admin_opts) (stdin : list str) (typed : list bytes)
            (seed : bytes) (w : world) (n1 : list event) (u : event) (n2 : list event),
-         new_events w (snd (do_onboard k o stdin typed seed w)) = (n1 ++ u :: n2)%list ->
+         new_events w (snd (do_onboard k o stdin typed seed w)) = n1 ++ u :: n2 ->
          destructive u = true ->
          exists (junk : list str) (l : str) (rest : list str),
-           stdin = (junk ++ l :: rest)%list /\ norm_answer l = s "yes" /\ Forall undecided junk.
+           stdin = junk ++ l :: rest /\ norm_answer l = s "yes" /\ Forall undecided junk.
 Proof. exact (@onboard_destructive_needs_yes). Qed.
 
 (* what is sent is the 32 random bytes, in order, one per SEED APDU, then the length-prefixed PIN, then WIPE (Ledger); one SGX_ONBOARD APDU seed ++ pin (SGX) *)
@@ -78,7 +81,7 @@ Theorem C18_onboard_seed_is_the_random_bytes :
          Exists (fun e : event => destructive e = true) n ->
          Datatypes.length seed = 32%nat /\
          (exists (pin : bytes) (pre mid cl : list event),
-            n = (pre ++ mid ++ cl)%list /\
+            n = pre ++ mid ++ cl /\
             Nob destructive pre /\
             Nob destructive cl /\
             OnboardSent k seed pin (is_ok (fst (do_onboard k o stdin typed seed w))) mid).
@@ -99,7 +102,7 @@ Theorem C18_onboard_pin_policy :
          let n := new_events w (snd (do_onboard k o stdin typed seed w)) in
          Exists (fun e : event => destructive e = true) n ->
          exists (pin : bytes) (pre mid cl : list event),
-           n = (pre ++ mid ++ cl)%list /\
+           n = pre ++ mid ++ cl /\
            Nob destructive pre /\
            Nob destructive cl /\
            OnboardSent k seed pin (is_ok (fst (do_onboard k o stdin typed seed w))) mid /\
@@ -108,7 +111,7 @@ Theorem C18_onboard_pin_policy :
            (forall p : bytes, o_pin o = Some p -> pin = p /\ policy_pin pin) /\
            (o_pin o = None ->
             exists bad rest : list bytes,
-              typed = (bad ++ pin :: rest)%list /\
+              typed = bad ++ pin :: rest /\
               Forall (fun x : bytes => pin_is_valid x (o_any_pin o) = false) bad).
 Proof. exact (@onboard_pin_policy). Qed.
 
@@ -125,12 +128,12 @@ Theorem C18_changepin_pin_policy :
   forall (k : dongle_kind) (o : admin_opts) (typed : list bytes) (w : world),
          let n := new_events w (snd (do_changepin k o typed w)) in
          exists nu nc : list event,
-           n = (nu ++ nc)%list /\
+           n = nu ++ nc /\
            (nu = [] \/
             o_no_unlock o = false /\ nu = new_events w (snd (do_unlock k o false false typed w))) /\
            (Nob newpin_ev nc \/
             (exists (pin : bytes) (pre mid post : list event),
-               nc = (pre ++ mid ++ post)%list /\
+               nc = pre ++ mid ++ post /\
                Nob newpin_ev pre /\
                Nob newpin_ev post /\
                NewPinSent k pin mid /\
@@ -147,14 +150,14 @@ Theorem C18_do_unlock_shape :
          spec (do_unlock k o e ne typed)
            (fun (_ : world) (r : result (list bytes)) (n : list event) (_ : world) =>
             Nob pin_bearing n /\ is_ok r = false \/
-            (exists pre rest : list event, n = (pre ++ rest)%list /\ UnlockChecked k o pre)).
+            (exists pre rest : list event, n = pre ++ rest /\ UnlockChecked k o pre)).
 Proof. exact (@do_unlock_shape). Qed.
 
 (* a PIN-bearing APDU of unlock is preceded by connect, mode = bootloader, onboarded, correct echo *)
 Theorem C18_unlock_pin_only_when :
   forall (k : dongle_kind) (o : admin_opts) (e ne : bool) (typed : list bytes) 
            (w : world) (n1 : list event) (u : event) (n2 : list event),
-         new_events w (snd (do_unlock k o e ne typed w)) = (n1 ++ u :: n2)%list ->
+         new_events w (snd (do_unlock k o e ne typed w)) = n1 ++ u :: n2 ->
          pin_bearing u = true ->
          InOrder (unlock_pre_events k) n1 /\
          (forall p : bytes, o_pin o = Some p -> pin_is_valid p (o_any_pin o) = true).
@@ -164,18 +167,17 @@ Proof. exact (@unlock_pin_only_when). Qed.
 Theorem C18_unlock_wrong_mode_no_pin :
   forall (k : dongle_kind) (o : admin_opts) (e ne : bool) (typed : list bytes) 
            (w : world) (n1 : list event) (u : event) (n2 : list event),
-         new_events w (snd (do_unlock k o e ne typed w)) = (n1 ++ u :: n2)%list ->
+         new_events w (snd (do_unlock k o e ne typed w)) = n1 ++ u :: n2 ->
          pin_bearing u = true ->
          exists (l1 : list event) (d : bytes) (l2 : list event),
-           n1 = (l1 ++ Apdu [CLA; CMD_GET_MODE] (Data d) :: l2)%list /\
-           idx d 1 = Some MODE_BOOTLOADER.
+           n1 = l1 ++ Apdu [CLA; CMD_GET_MODE] (Data d) :: l2 /\ idx d 1 = Some MODE_BOOTLOADER.
 Proof. exact (@unlock_wrong_mode_no_pin). Qed.
 
 (* typed entries not consumed by unlock are handed on unchanged *)
 Theorem C18_do_unlock_returns_suffix :
   forall (k : dongle_kind) (o : admin_opts) (e ne : bool) (typed : list bytes),
          rspec (do_unlock k o e ne typed)
-           (fun t : list bytes => exists l : list bytes, typed = (l ++ t)%list).
+           (fun t : list bytes => exists l : list bytes, typed = l ++ t).
 Proof. exact (@do_unlock_returns_suffix). Qed.
 
 (* Ledger: with an honest device and the preconditions, onboarding completes with exactly the expected exchanges *)
@@ -249,7 +251,7 @@ Theorem C18_pubkeys_one_per_path :
          map (fun e : str * str * str => (fst (fst e), snd (fst e))) ks =
          map (fun p : str * str * bytes => (fst (fst p), snd (fst p))) PUBKEY_PATHS /\
          (exists (nu : list event) (ds : list bytes) (tl_ : list event),
-            new_events w w' = (nu ++ key_events PUBKEY_PATHS ds ++ tl_)%list /\
+            new_events w w' = nu ++ key_events PUBKEY_PATHS ds ++ tl_ /\
             Datatypes.length ds = 6%nat /\
             (forall (j : nat) (nm pth : str) (bin d : bytes),
              nth_error PUBKEY_PATHS j = Some (nm, pth, bin) ->
@@ -291,7 +293,7 @@ Theorem C18_onboard_through_unlock_split :
              do_onboard_through_unlock k o stdin typed seed w =
              onboard_second_half k o (fst r) (snd r) w1 /\
              new_events w (snd (do_onboard_through_unlock k o stdin typed seed w)) =
-             (new_events w w1 ++ new_events w1 (snd (onboard_second_half k o (fst r) (snd r) w1)))%list
+             new_events w w1 ++ new_events w1 (snd (onboard_second_half k o (fst r) (snd r) w1))
          | Exn e =>
              do_onboard_through_unlock k o stdin typed seed w = (Exn e, w1) /\
              new_events w (snd (do_onboard_through_unlock k o stdin typed seed w)) = new_events w w1
@@ -303,7 +305,7 @@ Theorem C18_onboard_second_half_pin_only_when :
   forall (k : dongle_kind) (o : admin_opts) (stdin_rest : list str) 
            (typed_rest : list bytes) (w : world) (n1 : list event) (u : event) 
            (n2 : list event),
-         new_events w (snd (onboard_second_half k o stdin_rest typed_rest w)) = (n1 ++ u :: n2)%list ->
+         new_events w (snd (onboard_second_half k o stdin_rest typed_rest w)) = n1 ++ u :: n2 ->
          pin_bearing u = true ->
          InOrder (unlock_pre_events k) n1 /\
          (forall p : bytes, o_pin o = Some p -> pin_is_valid p (o_any_pin o) = true).
@@ -315,11 +317,33 @@ Theorem C18_onboard_through_unlock_pin_after_onboarding :
            (seed : bytes) (w : world) (r : list str * list bytes) (w1 : world) 
            (n1 : list event) (u : event) (n2 : list event),
          do_onboard_keep k o stdin typed seed w = (Ok r, w1) ->
-         new_events w1 (snd (do_onboard_through_unlock k o stdin typed seed w)) =
-         (n1 ++ u :: n2)%list ->
+         new_events w1 (snd (do_onboard_through_unlock k o stdin typed seed w)) = n1 ++ u :: n2 ->
          pin_bearing u = true ->
          InOrder (unlock_pre_events k) n1 /\
          (forall p : bytes, o_pin o = Some p -> pin_is_valid p (o_any_pin o) = true).
 Proof. exact (@onboard_through_unlock_pin_after_onboarding). Qed.
+
+(* TIE BY TRANSLATION (device monad): onboard of ledger/hsm2dongle.py (Ledger), as regenerated from the source text, is the model's on every world: 32 SEED exchanges (i, seed[i]) in order, the length-prefixed PIN, WIPE; a seed that is not 32 bytes sends nothing *)
+Theorem C18_source_onboard_is_model :
+  forall (self : pv) (seed pin : bytes) (w : world),
+         small_bytes pin ->
+         wf_bytes seed ->
+         srcm_HSM2Dongle__onboard self (VBytes seed) (VBytes pin) w =
+         mres VBool (onboard KLedger seed pin w).
+Proof. exact (@srcm_onboard_ok). Qed.
+
+(* unlock likewise *)
+Theorem C18_source_unlock_is_model :
+  forall (self : pv) (pin : bytes) (w : world),
+         small_bytes pin ->
+         srcm_HSM2Dongle__unlock self (VBytes pin) w = mres VBool (unlock KLedger pin w).
+Proof. exact (@srcm_unlock_ok). Qed.
+
+(* new_pin likewise *)
+Theorem C18_source_new_pin_is_model :
+  forall (self : pv) (pin : bytes) (w : world),
+         small_bytes pin ->
+         srcm_HSM2Dongle__new_pin self (VBytes pin) w = mres VBool (new_pin KLedger pin w).
+Proof. exact (@srcm_new_pin_ok). Qed.
 
 Example C18_nonvacuous : length PUBKEY_PATHS = 6%nat. Proof. exact pubkey_paths_are_six. Qed. (* vm_compute examples in Proofs/C18.v: ex_ledger_onboarded (42 destructive APDUs at exact positions), ex_carried_out_applies, ex_operator_says_no, ex_already_onboarded, ex_signer_mode_refused, ex_bad_echo_refused, ex_digits_only_pin_refused, ex_short_seed_refused, ex_sgx_onboarded, ex_unlock_sends_pin, ex_changepin, ex_pubkeys *)
